@@ -456,7 +456,13 @@ Definition compute_timeout (start lifetime timeout now : Z) : Z + Z :=
 Record prr := { p_owner : option name; p_class : Z; p_type : Z; p_ttl : Z; p_data : option name; p_num : Z }.
 Record pmsg := { pm_qr : bool; pm_rcode : Z; pm_nq : nat; pm_answer : list prr; pm_authority : list prr }.
 Inductive preply := PExn (k : Z) | PMsg (p : pmsg).
-Record outcome := { o_dur : Z; o_reply : preply }.
+(* what the server does is seen through the transport: o_reply is what a UDP query observes,
+   o_reply_tcp what a TCP (max-size) query observes (e.g. a reply with an empty question section and
+   rcode NOERROR is ignored by the UDP transport - a timeout - and is a BadResponse over TCP) *)
+Record outcome := { o_dur : Z; o_reply : preply; o_reply_tcp : preply }.
+
+Definition face (o : outcome) (tcp : bool) : outcome :=
+  {| o_dur := o_dur o; o_reply := if tcp then o_reply_tcp o else o_reply o; o_reply_tcp := o_reply_tcp o |}.
 
 Definition inst_rr (q : name) (sec : list rrset) (r : prr) : list rrset :=
   let owner := match p_owner r with Some n => n | None => q end in
@@ -523,7 +529,7 @@ Definition step (sc : nat -> outcome) (c : cfg) (start : Z) (s : st) (e : env)
       | inr d => inr (FLifetime (s_errors s1) d, s1, {| e_clock := clock1; e_pos := e_pos e; e_trace := e_trace e |})
       | inl T =>
           let q := {| q_name := s_qname s1; q_class := c_rdclass c; q_type := c_rdtype c |} in
-          let '(ob, clock2) := observe (sc (e_pos e)) T clock1 q in
+          let '(ob, clock2) := observe (face (sc (e_pos e)) tcp) T clock1 q in
           let ev := {| ev_server := sv_id ns; ev_tcp := tcp; ev_backoff := backoff; ev_timeout := T;
                        ev_qname := s_qname s1; ev_idx := e_pos e; ev_start := clock1; ev_end := clock2; ev_left := length (s_qnames s1); ev_level := s_backoff s1; ev_obs := ob |} in
           let e2 := {| e_clock := clock2; e_pos := S (e_pos e); e_trace := e_trace e ++ [ev] |} in
@@ -808,7 +814,31 @@ Definition preply_of (o : obs) : option preply :=
 
 Definition outcome_of (o : obs) : option outcome :=
   match o with
-  | L [I d; r] => match preply_of r with Some r => Some {| o_dur := d; o_reply := r |} | None => None end
+  | L [I d; L [I k; I aux; m]] =>
+      (* a server behaviour at wire level (harness family `wire`): the two faces are what the documented
+         transport semantics of dns.query.udp(ignore_errors, ignore_unexpected, raise_on_truncation) and
+         dns.query.tcp give.  aux = spoofed / malformed datagrams sent before the reply: always skipped. *)
+      match preply_of m with
+      | Some r =>
+          let both x := Some {| o_dur := d; o_reply := x; o_reply_tcp := x |} in
+          let two u t := Some {| o_dur := d; o_reply := u; o_reply_tcp := t |} in
+          if k =? 0 then both r                                   (* a normal reply *)
+          else if k =? 1 then                                     (* header only: empty question section *)
+            match r with
+            | PMsg p => if (pm_rcode p =? 1) || (pm_rcode p =? 2) || (pm_rcode p =? 4) || (pm_rcode p =? 5)
+                        then both r else two (PExn kTimeout) (PExn 1)
+            | PExn _ => None
+            end
+          else if k =? 2 then two (PExn kTruncated) r             (* TC bit set *)
+          else if k =? 3 then two (PExn kTimeout) (PExn 2)        (* garbage: ignored / ShortHeader *)
+          else if k =? 4 then two (PExn kTimeout) (PExn 5)        (* silence / connection closed: EOFError *)
+          else if k =? 5 then two (PExn kTimeout) (PExn 1)        (* QR clear: not a response *)
+          else if k =? 6 then both (PExn 6)                       (* socket error: OSError *)
+          else if k =? 7 then both (PExn kTimeout)                (* silence *)
+          else None
+      | None => None
+      end
+  | L [I d; r] => match preply_of r with Some r => Some {| o_dur := d; o_reply := r; o_reply_tcp := r |} | None => None end
   | _ => None
   end.
 
